@@ -28,6 +28,10 @@ func main() {
 		runFieldList()
 	case "api":
 		runApi()
+	case "reglist":
+		runRegList()
+	case "copies":
+		runCopies()
 	default:
 		fmt.Fprintf(os.Stderr, "unknown subcommand %q\n", os.Args[1])
 		os.Exit(2)
